@@ -71,10 +71,28 @@ func (parser *Parser) nextLineBytes() ([]byte, error) {
 
 // get next bulk message bytes of length num.
 func (parser *Parser) nextLengthBytes(num int) ([]byte, error) {
+	if num < 0 || maxBulkStringLength < num {
+		return nil, fmt.Errorf(errorTooLargeBulkStringLength, num, maxBulkStringLength)
+	}
 	n := num + 2 // + crlf
-	buf := make([]byte, n)
+	// The buffer grows with the bytes actually received, so that a declared
+	// length alone can not make the parser allocate.
+	bufSize := n
+	if bulkStringBufferSize < bufSize {
+		bufSize = bulkStringBufferSize
+	}
+	buf := make([]byte, bufSize)
 	totalRead := 0
 	for totalRead < n {
+		if totalRead == len(buf) {
+			bufSize = 2 * len(buf)
+			if n < bufSize {
+				bufSize = n
+			}
+			newBuf := make([]byte, bufSize)
+			copy(newBuf, buf)
+			buf = newBuf
+		}
 		read, err := parser.reader.Read(buf[totalRead:])
 		if err != nil {
 			if err == io.EOF {
